@@ -14,7 +14,7 @@ ASSUMPTIONS = {
     "A-lib": "list.sort/sorted return a sorted stable permutation; pickle round trip is structural; str.split/join/strip per documentation",
     "A-log": "the call of a logger.* statement is dropped; its argument expressions are evaluated without forking, so an exception they raise unconditionally on a path is seen (exceptions inside __repr__/__str__ of logged values and in forking sub-expressions are not)",
     "A-analysis": "C17, duplication of a positive example: for a document with several distinct n-grams the step sum_i c_i*log(1+c_i/a_i) >= C*log(1+C/A) uses the convexity of log(1+1/x) (Jensen) -- a paper argument in DESIGN A.9, not machine-checked; the one-feature case and the prior part are discharged lemmas",
-    "A-noalias": "distinct arguments of a rule are distinct objects",
+    "A-noalias": "distinct arguments of a rule are distinct objects: an invariant of productions whose inductive step is discharged (wrapper: result-is-none-of-the-arguments; apply_rule: items-stay-pairwise-distinct-objects) and whose base case (initial sequences have strictly increasing match indices) rests on the bounded _regex_stack units; assumed when a rule body is verified on its own",
 }
 
 
